@@ -342,6 +342,8 @@ def check_pole_sign(ctx: Check, tree: Tree) -> None:
 
 def run(ctx: Check, tree: Tree) -> None:
     ctx.decided += [
+        'closed forms for a concrete number of channels satisfy T(1-iK)=K entry by entry on an explicit symbol matrix (sa/dense.py)',
+        'R-POLESIGN: the normalisation constants of EnergyDependentWidth at the pole are sign-insensitive; PhaseSpaceFactorAbs is real for every real s',
         "K-matrix parametrisations are symmetric under i<->j, contain no imaginary unit, and sum over the poles (R-TERM)",
         "T = K(1-iK)^-1; T^ = K(1 - i rho K)^-1 (or the push-through equivalent), T = conj(sqrt rho) T^ sqrt rho - non-commutative normal form (R-TERM-NC)",
         "rho symbols of producer and consumers agree; duplicated s/m/Gamma/gamma/m_a/m_b/R constructions agree in kind and assumptions (R-SYMPAIR)",
